@@ -52,6 +52,7 @@ type Obligation struct {
 	NAssume int // number of assumptions (prefix of Engine.assumes) in force
 	Func    string
 	Clause  string // contract clause label/source when it stems from one
+	Tainted bool   // generated after a loop clause failed to bind: a failure is undecided, not a violation
 	// filled by discharge
 	Result SolverResult
 	Query  string
@@ -60,6 +61,8 @@ type Obligation struct {
 // FnCtx is the verification context of one function under contract: all
 // obligations, assumptions and declarations generated from it.
 type FnCtx struct {
+	bindLoopHeaps map[string]bool // (sanitized) heaps modified by loops whose contract no longer binds
+	bindErrors []string // contract clauses that no longer bind to the code (reported as UNDECIDED; other obligations are still generated)
 	rootLets map[string]CV // `def` names of the contract under verification
 	reveal map[string]bool // hidden spec functions whose definitions are visible (lemma proofs)
 	touchedGhost map[string]bool // when non-nil: names of ghost cells touched (havocGhostsForCall)
@@ -244,6 +247,19 @@ func (fx *FnCtx) oblige(kind, name string, st *State, cond T, pos token.Pos, cla
 		full = fmt.Sprintf("%s%d", strings.TrimSuffix(full, "#")+"#", n)
 	}
 	o := &Obligation{Name: full, Kind: kind, Guard: st.guard, Cond: cond, NAssume: len(fx.assumes), Func: fx.rootName(), Clause: clause}
+	// after a loop clause failed to bind, what is proved or not proved says
+	// nothing about the code - except that the state before that loop keeps
+	// the frame
+	if len(fx.bindErrors) > 0 && !strings.Contains(full, "/inv_established/auto_frame/") {
+		o.Tainted = true
+		// a frame condition on a heap that no such loop writes does not
+		// depend on the lost invariants
+		if kind == "frame" {
+			if i := strings.LastIndex(full, "/frame/"); i >= 0 && !fx.bindLoopHeaps[full[i+7:]] {
+				o.Tainted = false
+			}
+		}
+	}
 	if pos.IsValid() {
 		o.Pos = fx.eng.prog.Fset.Position(pos)
 	}
